@@ -1,6 +1,6 @@
 (** C18 -- Output is exactly what the executed print statements denote, in order. *)
 From Pakhi Require Import Base Float64 Syntax Tables Lexer Interp.
-From Pakhi.Proofs Require Import OutputFrame Output Faults.
+From Pakhi.Proofs Require Import OutputFrame Output Faults PrintFacts.
 Local Open Scope nat_scope.
 
 (* what was written stays written, in order: every statement and every expression only appends *)
@@ -77,3 +77,13 @@ Print Assumptions C18_failing_print_writes_nothing.
 Theorem C18_boolean_spellings : text_true = [2488; 2468; 2509; 2479]%N /\ text_false = [2478; 2495; 2469; 2509; 2479; 2494]%N.
 Proof. vm_compute. split; reflexivity. Qed.
 Print Assumptions C18_boolean_spellings.
+
+(* the brackets, separators and key decoration the model writes are the literals the three renderers of the source write
+   NOW ([fmt_*] are regenerated from interpreter.rs on every run) *)
+Theorem C18_renderer_uses_the_literals_of_the_source :
+  let h := mkHeap [[VStr [97%N]; VBool true]] [] [[([107%N], VList 0)]] [] 0 in
+  render_nested 5 h (VRec 0) =
+    Ok [CPrint fmt_rec_open; CPrint (fmt_key_prefix ++ [107%N] ++ fmt_key_suffix); CPrint fmt_list_open; CPrint [97%N]; CPrint fmt_list_sep;
+        CPrint text_true; CPrint fmt_list_close; CPrint fmt_entry_end; CPrint fmt_rec_close].
+Proof. exact renderer_uses_the_literals_of_the_source. Qed.
+Print Assumptions C18_renderer_uses_the_literals_of_the_source.
